@@ -621,6 +621,8 @@ def main():
     x_ = qk_.QDepthwiseConv2D(2, depthwise_quantizer="quantized_bits(3,0,1)", bias_quantizer="quantized_bits(5,2,1)", activation="quantized_relu(3,1)", name="sz_qdw")(x_)
     x_ = L_.BatchNormalization(scale=False, name="sz_bn1")(x_)
     x_ = qk_.QActivation("quantized_relu(5,2)", name="sz_qa")(x_)
+    import qkeras.quantizers as qz_
+    x_ = qk_.QActivation(qz_.quantized_relu(3, 1), name="sz_qa_obj")(x_)       # a quantizer OBJECT (no __name__): counted at its own width
     x_ = L_.Flatten(name="sz_fl")(x_)
     x_ = qk_.QDense(4, kernel_quantizer="ternary(alpha=1.0)", bias_quantizer="quantized_bits(6,2,1)", activation="softmax", name="sz_qd_softmax")(x_)
     # fused PLAIN activations on quantized layers: no quantizer is applied to the output, so it is counted at the reference width
